@@ -330,6 +330,9 @@ pub fn make_providers(leap: &LeapTable) -> Providers {
                 3 => s.push_str(&format!("{ts}\t{d}\n# interleaved comment {i}\n")),
                 4 => s.push_str(&format!("{ts}\t{d}\t#\t1\tJan\t1972\r\n")),
                 5 => s.push_str(&format!("{ts}\t \t{d} \t # x\n")),
+                // a comment that touches the second column ("the symbol '#' introduces a comment, which continues ... until
+                // the end of the line")
+                7 => s.push_str(&format!("{ts}\t{d}# entry {i}\n")),
                 // blank lines that hold white space only ("A blank line should be ignored"), an indented comment line
                 _ => s.push_str(&format!("{ts}\t{d}\t# entry {i}\n{}", ["   \n", "\t\n", " # indented comment\n", " \t \n"][i % 4])),
             }
@@ -348,7 +351,7 @@ pub fn make_providers(leap: &LeapTable) -> Providers {
         });
         files.push((format!("prefix_{n:02}"), f, leap.from_prefix(n)));
     }
-    for style in 1..=6 {
+    for style in 1..=7 {
         let path = format!("{dir}/style_{style}.list");
         std::fs::write(&path, render(&leap.entries, style)).expect("write provider file");
         match LeapSecondsFile::from_path(&path) {
@@ -534,7 +537,7 @@ pub fn run(rep: &mut Report) {
     let deep = !rep.quick();
     let q = false;
     let leap = load();
-    rep.rule = "built-in table, reverse iteration, indexing and the file provider against the IERS list parsed from data/leap-seconds.list and naif0012.txt; UTC and TAI instants: every whole second from -45 s to +85 s around each of the 28 IERS and 14 SOFA entries x sub-second offsets {0, 1 ns, 1/2 s, 1 s - 1 ns}, windows of every nanosecond round each entry, the duration lattice within +-10 500 years; stateright BFS over sequences mixing conversions among UTC/TAI/GPST/TT with +- steps from states next to four table entries; providers: files written for every prefix of the IERS list (0..28 entries) and 6 format variants x the instants x scales. Oracle: table lookup on integers; TAI->UTC defined as the inverse of UTC->TAI, inside an inserted interval only the two holding values are accepted (the current convention is known finding D37). Non-trivial = within 90 s of an entry.".into();
+    rep.rule = "built-in table, reverse iteration, indexing and the file provider against the IERS list parsed from data/leap-seconds.list and naif0012.txt; UTC and TAI instants: every whole second from -45 s to +85 s around each of the 28 IERS and 14 SOFA entries x sub-second offsets {0, 1 ns, 1/2 s, 1 s - 1 ns}, windows of every nanosecond round each entry, the duration lattice within +-10 500 years; stateright BFS over sequences mixing conversions among UTC/TAI/GPST/TT with +- steps from states next to four table entries; providers: files written for every prefix of the IERS list (0..28 entries) and 7 format variants x the instants x scales. Oracle: table lookup on integers; TAI->UTC defined as the inverse of UTC->TAI, inside an inserted interval only the two holding values are accepted (the current convention is known finding D37). Non-trivial = within 90 s of an entry.".into();
     rep.assumptions = vec!["the two shipped data files agree with each other and with the 28-entry digest in the harness (checked at start-up; a mismatch is a machinery error)".into()];
     sweep(rep, "c06.table", 4, |i, out| j_table(if i == 3 { 3 } else if i == 2 { 4 } else { i }, &leap, out));
     // the UTC constructors from a float count or a duration: a UTC epoch with exactly that elapsed UTC time
@@ -588,6 +591,29 @@ pub fn run(rep: &mut Report) {
     let depth = if deep { 5 } else { 4 };
     rep.bound("seq", format!("{} initial states, 12 actions (4 conversions, 8 steps), depth {depth}", inits.len()));
     crate::engine::bfs(rep, "c06.seq", Seq { leap: leap.clone(), inits, depth });
+    // order independence (depth-2 operation sequences on one thread): UTC -> TAI, TAI -> UTC and the accessor at instants
+    // round four table entries, before the table and after it, in every order
+    {
+        let mut menu: Vec<(u8, i128)> = vec![];
+        for (ts, d) in [leap.entries[0], leap.entries[1], leap.entries[14], leap.entries[27]] {
+            for o in [-2 * NS, 0, NS / 2, 40 * NS] {
+                menu.push((0, ts as i128 * NS + o));
+                menu.push((1, (ts + d) as i128 * NS + o));
+                menu.push((2, (ts + d) as i128 * NS + o + 50 * NS));
+            }
+        }
+        for c in [0i128, -NS, 1_000_000_000 * NS, 5_000_000_000 * NS] {
+            menu.push((0, c));
+            menu.push((1, c));
+            menu.push((2, c));
+        }
+        let lp = &leap;
+        crate::engine::order_pairs(rep, "c06.order", menu.len() as u64, |i, out| match menu[i as usize] {
+            (0, c) => j_utc(c, lp, out),
+            (1, c) => j_tai(c, lp, out),
+            (_, c) => j_accessor(c, lp, out),
+        });
+    }
     let prov = make_providers(&leap);
     rep.bound("providers", prov.files.len() as u64);
     // provider lattice: whole seconds around entries + sub-second edge
